@@ -452,6 +452,16 @@ class ProgGen:
             return self.add({"op": "expand_dims", "args": [a], "axis": axes})
         return self.add({"op": "expand_dims", "args": [a], "axis": self.rng.randint(0, x.ndim)})
 
+    def g_expand_dims_multi(self):
+        """two or more unit axes added at once (expand_dims with a tuple / several None in one index)"""
+        a = self.pick()
+        x = self.env[a]
+        if x.ndim > self.maxrank - 1:
+            raise _Skip
+        k = 2 if x.ndim + 2 > self.maxrank + 1 or self.rng.random() < 0.7 else 3
+        axes = sorted(self.rng.sample(range(x.ndim + k), k))
+        return self.add({"op": "expand_dims", "args": [a], "axis": axes})
+
     def g_self_transpose(self):
         """a (op) a.T for square 2-D arrays: one node consumed under two block mappings."""
         cands = [k for k, v in self.env.items() if v.ndim == 2 and v.shape[0] == v.shape[1] and v.shape[0] > 0]
